@@ -208,6 +208,69 @@ def case_slice1dint(ctx, inp):
         ctx.branch("int-later-block")
 
 
+def case_normidx(ctx, inp):
+    """normalize_index (replace_ellipsis, padding with colons, check_index, normalize_slice, posify) on a basic /
+    integer-list index: entry by entry against the Lean per-axis functions, errors as NumPy raises them."""
+    import numpy as np
+    from dask.array.slicing import normalize_index
+    shape = tuple(inp["shape"])
+    idx = _to_index(inp["index"])
+    x = np.zeros(shape, dtype="i1")
+    try:
+        x[idx]
+        np_ok = True
+    except IndexError:
+        np_ok = False
+    try:
+        out = normalize_index(idx, shape)
+    except IndexError:
+        if np_ok:
+            ctx.fail("normalize_index raised IndexError for an index NumPy accepts", observed=inp["index"])
+        else:
+            ctx.branch("normidx-rejected")
+        return
+    if not np_ok:
+        ctx.fail("normalize_index accepted an index NumPy rejects", observed=[repr(o)[:40] for o in out])
+        return
+    # reference expansion: Ellipsis -> colons, pad with colons
+    kinds = inp["index"]
+    nreal = sum(1 for k, _ in kinds if k not in ("none", "ellipsis"))
+    full = []
+    for k, v in kinds:
+        if k == "ellipsis":
+            full += [("slice", [None, None, None])] * (len(shape) - nreal)
+        else:
+            full.append((k, v))
+    full += [("slice", [None, None, None])] * (len(shape) - sum(1 for k, _ in full if k != "none"))
+    if len(out) != len(full):
+        ctx.fail("normalize_index: wrong number of entries", observed=len(out), expected=len(full))
+        return
+    ax = 0
+    for (k, v), o in zip(full, out):
+        if k == "none":
+            if o is not None:
+                ctx.fail("normalize_index moved a np.newaxis", observed=repr(o)[:40])
+                return
+            continue
+        n = shape[ax]
+        ax += 1
+        if k == "slice":
+            want = unsym(ctx.lean(Sym("normslice"), v, n))
+            ctx.eq("normalize_index slice entry", want, ["ok", canon_slice(o)] if isinstance(o, slice) else ["other", repr(o)[:30]])
+        elif k == "int":
+            want = unsym(ctx.lean(Sym("posify"), n, v))
+            ctx.eq("normalize_index int entry", want, ["ok", int(o)] if isinstance(o, (int, np.integer)) else ["other", repr(o)[:30]])
+        else:
+            exp = [i + n if i < 0 else i for i in v]
+            got = np.asarray(o).tolist() if hasattr(o, "tolist") or isinstance(o, list) else None
+            if got != exp:
+                ctx.fail("normalize_index: integer list not posified", observed=got, expected=exp)
+                return
+    ctx.branch("normidx")
+    for k in set(k for k, _ in kinds):
+        ctx.branch("normidx-" + k)
+
+
 def near_identity(rng, n):
     """Integer indexers close to the identity `arange(n)` — where `take`'s no-op shortcut must NOT fire
     (and the identity itself, where it must)."""
@@ -630,7 +693,7 @@ def case_blocks(ctx, inp):
     ctx.branch("blocks")
 
 
-CASES = {"take": case_take, "pyslice": case_pyslice, "norm": case_norm, "slice1d": case_slice1d, "slice1dint": case_slice1dint,
+CASES = {"normidx": case_normidx, "take": case_take, "pyslice": case_pyslice, "norm": case_norm, "slice1d": case_slice1d, "slice1dint": case_slice1dint,
          "api1d": case_api1d, "apind": case_apind, "vindex": case_vindex, "blocks": case_blocks}
 
 
@@ -688,6 +751,9 @@ def _rand_nd_index(rng, shape, fancy=True):
         spec.append(("ellipsis", None))
     if rng.random() < 0.1:
         spec.append(("none", None))
+    if used_fancy and rng.random() < 0.75:
+        # np.newaxis together with an array index is a known-finding class: keep only a quarter of those
+        spec = [e for e in spec if e[0] != "none"]
     return spec
 
 
@@ -760,6 +826,21 @@ def generate(ctx):
         else:
             idx = [rng.randrange(-n, n) for _ in range(rng.randint(1, n + 3))]
         yield "take", {"chunks": chunks, "axis": axis, "index": idx}
+    # (2c) normalize_index on basic / integer-list indices, incl. too many indices and out-of-bounds entries
+    for _ in range(ctx.n(350, 6000)):
+        shape, _chunks = _rand_nd(rng, zero=0.05)
+        spec = [e for e in _rand_nd_index(rng, shape) if e[0] in ("slice", "int", "none", "ellipsis", "list")]
+        t = rng.random()
+        if t < 0.08:
+            spec.append(("slice", [None, None, None]))        # possibly one index too many
+        elif t < 0.16 and spec:
+            j = rng.randrange(len(spec))
+            if spec[j][0] == "int":
+                n = max(shape) + 1
+                spec[j] = ("int", rng.choice([n, -n - 1, n + 1]))
+        if sum(1 for k, _ in spec if k == "ellipsis") > 1:
+            continue
+        yield "normidx", {"shape": shape, "index": spec}
     # (3) API level, one axis
     for n in range(0, 7):
         for lengths in compositions(n):
